@@ -124,7 +124,7 @@ class FilteredVerdict(vlib.Verdict):
         super().add(mm)
 
 
-def run_family(prop, tier, mc_cfg, edge_cfg, sizes, deep=False, probes=(), assumptions=(), quick_paths=4000, extra=None, live_cfg=None):
+def run_family(prop, tier, mc_cfg, edge_cfg, sizes, deep=False, probes=(), assumptions=(), quick_paths=4000, extra=None, live_cfg=None, thorough_paths=None):
     import time as _t
     t0 = _t.time()
     wd = vlib.workdir(prop)
@@ -145,7 +145,7 @@ def run_family(prop, tier, mc_cfg, edge_cfg, sizes, deep=False, probes=(), assum
         hit, _ = probe(wd, cfg, trees, expect)
         probe_res[cfg] = hit
     env = {"VERIF_DEEP": "1"} if deep else {}
-    rr = leg_r(wd, binary, edge_cfg, trees, specs, verdict, max_paths=(quick_paths if tier == "quick" else None), extra_env=env)
+    rr = leg_r(wd, binary, edge_cfg, trees, specs, verdict, max_paths=(quick_paths if tier == "quick" else thorough_paths), extra_env=env)
     tt = None
     if extra:
         tt = extra(wd, binary, tier, verdict)
